@@ -2,6 +2,7 @@ import PkgModel.Py
 import PkgModel.Rx
 import PkgModel.Generated.NameTables
 import PkgModel.Generated.NameValidRx
+import PkgModel.Generated.NormalizedRx
 /-!
 # Names — model of `canonicalize_name` / `is_normalized_name` (`packaging/utils.py`)
 
@@ -10,12 +11,9 @@ import PkgModel.Generated.NameValidRx
   scan the regex engine performs (state = "inside a run").
 * `lower` is `str.lower`: ASCII by rule, other code points by the generated per-code-point table
   (U+03A3 gets its non-final form; its context-dependent final form is outside the model).
-* `validName` is `_validate_regex.match(name) is not None` through the generated regex (the `$` anchor
-  is part of the generated term: it also matches before one trailing newline).
-* `isNormalized` mirrors `_normalized_regex.match`, pattern
-  `^([a-z0-9]|[a-z0-9]([a-z0-9-](?!--))*[a-z0-9])$` : the look-ahead sits *after* the character consumed by
-  the repetition, so it is evaluated at the position following each repeated character — never at the
-  position following the first character of the name.
+* `validName` is `_validate_regex.match(name) is not None` and `isNormalized` is
+  `_normalized_regex.match(name) is not None`, both through the regex regenerated from the pattern in the
+  source (anchors are part of the generated term: `$` would also match before one trailing newline, `\Z` does not).
 -/
 namespace Names
 open Py
@@ -61,35 +59,7 @@ def validName (s : Str) : Bool := Rx.accepts Gen.NameValidRx.ranges Gen.NameVali
 def canonicalizeName (s : Str) (validate : Bool) : Option Str :=
   if validate && !validName s then none else some (canon s)
 
-/-! ## `_normalized_regex.match` -/
-
-/-- `[a-z0-9]` -/
-def lowAlnum (c : Nat) : Bool := isLowerAscii c || isDigit c
-/-- `[a-z0-9-]` -/
-def lowAlnumDash (c : Nat) : Bool := lowAlnum c || c == 45
-
-/-- `(?!--)` at the start of `s` -/
-def notDashDash (s : Str) : Bool := !startsWith s [45, 45]
-
-/-- `$` at `s` : the end, or one newline and the end -/
-def atEnd : Str → Bool
-  | [] => true
-  | c :: r => c == 10 && r.isEmpty
-
-/-- `[a-z0-9]$` at `s` -/
-def normFinal : Str → Bool
-  | [] => false
-  | c :: r => lowAlnum c && atEnd r
-
-/-- `([a-z0-9-](?!--))*[a-z0-9]$` at `s` (the engine tries the repetition first and backtracks to the final
-character; as a language this is the disjunction below) -/
-def normTail : Str → Bool
-  | [] => false
-  | c :: r => normFinal (c :: r) || (lowAlnumDash c && notDashDash r && normTail r)
-
-/-- `is_normalized_name(name)` -/
-def isNormalized : Str → Bool
-  | [] => false
-  | c :: r => lowAlnum c && (atEnd r || normTail r)
+/-- `is_normalized_name(name)`: `_normalized_regex.match(name) is not None`, through the generated regex -/
+def isNormalized (s : Str) : Bool := Rx.accepts Gen.NormalizedRx.ranges Gen.NormalizedRx.rx s
 
 end Names
